@@ -10,7 +10,8 @@ from ..refs import symbolic as S
 RULE = (
     "Expression trees E ::= const | var | E+E | E*E | E/(2+E^2) | sin/cos/exp/tanh(0.5 E) | E**n | D_m(lambda y. E)(E) "
     "with D_m in {grad, deriv, jacobian, make_vjp(..)(1.0), make_jvp(..)(1.0), elementwise_grad, value_and_grad, "
-    "hessian-diagonal forms}; inner bodies may mention any enclosing variable, the evaluation point may depend on "
+    "hessian-diagonal forms} | d/dv_j d/dv_i (lambda va vb. E)(E, E) as two operators stacked directly on a two-argument function "
+    "(argnum explicit or left to its default); inner bodies may mention any enclosing variable, the evaluation point may depend on "
     "outer variables; nesting depth 2-4, the mode of every level drawn independently (all 2^depth reverse/forward "
     "assignments are reachable). Oracle: reference symbolic differentiator with unique binders (vh/refs/symbolic.py), "
     "float evaluation, tolerance 1e-9 relative. Non-trivial = nesting depth >= 2 and some inner body mentions a "
@@ -21,6 +22,24 @@ RULE = (
 MODES = ["grad", "deriv", "jac", "vjp", "jvp", "egrad", "vag", "hvp_like"]
 PMODES = ["jvp_primal", "vjp_primal", "vag_primal", "gaa_aux"]
 HMODES = ["htp_arg1", "hvp_arg2", "make_hvp_arg1", "hessian_arg1"]
+
+
+NARY = ["grad", "deriv", "jac", "egrad", "vag", "vjp", "jvp"]
+
+
+def nary_ops():
+    """Operators taking (fun, argnum) and returning a function of the same arguments as fun."""
+    from autograd import deriv, elementwise_grad, grad, jacobian, make_jvp, make_vjp, value_and_grad
+
+    def plain(op):
+        return lambda f, *argnum: op(f, *argnum)
+
+    return {
+        "grad": plain(grad), "deriv": plain(deriv), "jac": plain(jacobian), "egrad": plain(elementwise_grad),
+        "vag": lambda f, *argnum: (lambda *a: value_and_grad(f, *argnum)(*a)[1]),
+        "vjp": lambda f, *argnum: (lambda *a: make_vjp(f, *argnum)(*a)[0](1.0)),
+        "jvp": lambda f, *argnum: (lambda *a: make_jvp(f, *argnum)(*a)(1.0)[1]),
+    }
 
 
 class _Boom(Exception):
@@ -78,6 +97,19 @@ def gen(c, vars_, depth, counter):
         return ("F", gen(c, vars_, depth - 1, counter))
     counter[0] += 1
     y = "y%d" % counter[0]
+    if k == 10 and c.chance(1, 2):
+        # two operators stacked directly on a two-argument function: d/dv_j d/dv_i (argnum explicit, or left to its default when 0)
+        counter[0] += 1
+        y2 = "y%d" % counter[0]
+        i, j = c.int(0, 1), c.int(0, 1)
+        spec = (c.choice(NARY), j, c.choice(NARY), i, j == 1 or c.bool(), i == 1 or c.bool())
+        # the body always mixes both variables (kernel with pairwise different second partials) with generated sub-expressions
+        va, vb = ("v", y), ("v", y2)
+        kernel = [("*", ("sin", ("*", ("c", 0.5), ("+", va, ("*", ("c", 2.0), vb)))), ("pow", vb, 2)),
+                  ("*", ("pow", va, 2), ("pow", vb, 3)),
+                  ("/", ("*", va, ("exp", ("*", ("c", 0.5), vb))), ("+", ("c", 2.0), ("pow", va, 2)))][c.int(0, 2)]
+        mbody = ("+", ("*", kernel, gen(c, vars_ + [y, y2], depth - 2, counter)), gen(c, vars_ + [y, y2], depth - 2, counter))
+        return ("M", spec, (y, y2), mbody, ("pair", gen(c, vars_, depth - 2, counter), gen(c, vars_, depth - 2, counter)))
     if k == 11 and c.chance(1, 3):
         return ("H", HMODES[c.int(0, len(HMODES) - 1)], y, gen(c, vars_ + [y], depth - 1, counter), gen(c, vars_, depth - 2, counter))
     if k == 12:
@@ -114,6 +146,13 @@ def comp(e, env, OPS, np):
             except _Boom:
                 pass
         return comp(e[1], env, OPS, np)
+    if t == "M":
+        _, (m_out, j, m_in, i, explicit_j, explicit_i), (va, vb), body, at = e
+        N = nary_ops()
+        f = lambda a, b: comp(body, {**env, va: a, vb: b}, OPS, np)
+        inner = N[m_in](f, i) if explicit_i else N[m_in](f)
+        outer = N[m_out](inner, j) if explicit_j else N[m_out](inner)
+        return outer(comp(at[1], env, OPS, np), comp(at[2], env, OPS, np))
     if t in ("D", "P", "H"):
         _, mode, var, body, at = e
         f = lambda y: comp(body, {**env, var: y}, OPS, np)
@@ -131,6 +170,14 @@ def closure_patterns(e, bound=()):
         return closure_patterns(e[1], bound)
     if t == "F":
         return {"after_caught_failure"} | closure_patterns(e[1], bound)
+    if t == "M":
+        _, spec, (va, vb), body, at = e
+        out.add("stacked_operators_argnum=%d%d" % (spec[3], spec[1]))
+        if any(S.mentions(body, b_) for b_ in bound):
+            out.add("closure=immediate" if S.mentions(body, bound[-1]) else "closure=skip_level")
+        if any(S.mentions(at, b_) for b_ in bound):
+            out.add("point_depends_on_outer")
+        return out | closure_patterns(body, bound + (va, vb)) | closure_patterns(at[1], bound) | closure_patterns(at[2], bound)
     if t in ("D", "P", "H"):
         _, mode, var, body, at = e
         if t == "P":
@@ -167,6 +214,13 @@ def modeseq(e, acc=None):
         return modeseq(e[1], acc)
     if t == "F":
         return modeseq(e[1], acc)
+    if t == "M":
+        acc.append("r" if e[1][0] in REV else "f")
+        acc.append("r" if e[1][2] in REV else "f")
+        modeseq(e[3], acc)
+        modeseq(e[4][1], acc)
+        modeseq(e[4][2], acc)
+        return acc
     if t in ("D", "P", "H"):
         acc.append("r" if (e[1] in REV or e[1] in ("vjp_primal", "vag_primal", "gaa_aux") or t == "H") else "f")
         modeseq(e[3], acc)
